@@ -173,6 +173,7 @@ func clockContext(stack []ast.Node) string {
 //   store   method calls on side stores held in struct fields of core / service / executor /
 //           middleware types (LevelDB handles, LRU caches, sync.Map, gmap, plain map fields)
 //   ctx     reads / writes / deletes of entries of the executor's context map
+//   gwrite  assignments to package-level variables (the execution path should write none)
 
 type fnInfo struct {
 	key     string
@@ -281,12 +282,14 @@ func procStatePass(fset *token.FileSet, imp types.Importer) []site {
 									if root, ok := t.X.(*ast.Ident); ok { // global.field = …
 										if v, ok := info.Uses[root].(*types.Var); ok && v.Pkg() != nil && v.Parent() == v.Pkg().Scope() {
 											written[v.Pkg().Name()+"."+v.Name()] = true
+											fi.sites = append(fi.sites, site{"gwrite", rel, disp, v.Pkg().Name() + "." + v.Name() + "." + t.Sel.Name})
 										}
 									}
 								}
 								if id != nil {
 									if v, ok := info.Uses[id].(*types.Var); ok && v.Pkg() != nil && v.Parent() == v.Pkg().Scope() {
 										written[v.Pkg().Name()+"."+v.Name()] = true
+										fi.sites = append(fi.sites, site{"gwrite", rel, disp, v.Pkg().Name() + "." + v.Name()})
 									}
 								}
 							}
